@@ -72,7 +72,7 @@ RULES = [
   (r'state::build_let_vec$', r'Overflow\(Sub\)', r'', '-', 'idx -= 1 directly after build_let_vec_next, which either failed or incremented idx'),
   (r'state::build_let_vec_next', r'Overflow\(Add\)', r'', 'Ne(arg2, 18446744073709551615)', 'idx != usize::MAX on this path'),
   (r'state::core_word_collect', r'Overflow\(Sub\)', r'', 'Le(', 'n <= data_depth() = len - ds_len <= len on this path'),
-  (r'state::core_word_const', r'call:index:index(_mut)?', r'dict_pos', '-', 'pos was just returned by dict_pos (rposition over dict) and nothing removed an entry since'),
+  (r'state::core_word_const', r'call:index:index(_mut)?', r'', '-', 'pos was just returned by dict_pos (rposition over dict) and nothing removed an entry since'),
   (r'state::core_word_def_end', r'Overflow\(Sub\)', r'', '-', 'start is the origin of the Jump emitted by `:` and a Ret was just emitted: code_origin() >= start + 2'),
   (r'state::core_word_nested_(end|inject)', r'panic:panic', r'loops', '-', 'debug_assert: run() finished the meta code before the next token is read and every counted loop pops its record on exit (C01.R4), so the loop stack is back at the context mark'),
   (r'state::map_collect_till_ptr', r'BoundsCheck', r'', 'Eq(Rem(', 'the slice length is even on this path, so every chunk of chunks(2) has exactly two elements'),
